@@ -60,6 +60,11 @@ func scnValidate(payload string, caller string, method string, ctxv time.Duratio
 		tPut += s.H
 		tCall += s.H
 	}
+	if caller == "leader-before-tick" {
+		// the call comes 40 ms before the leader's next heartbeat: a read that takes longer
+		// than that (still < H/2) is answered after the heartbeat has met the outside record
+		tPut, tCall = 2*s.H-42*ms+3*us, 2*s.H-40*ms+5*us
+	}
 	if payload != "<none>" {
 		s.Script = append(s.Script, Item{At: tPut, Actor: "outside", Do: "put", Payload: payload})
 	}
@@ -98,6 +103,9 @@ func c04Plan(tier string) []PlanItem {
 					items = append(items, PlanItem{scnValidate(p, caller, m, cv, false), d})
 				}
 			}
+		}
+		for _, m := range []string{"validate", "validateOrDemote"} {
+			items = append(items, PlanItem{scnValidate(p, "leader-before-tick", m, 0, false), 1})
 		}
 	}
 	return items
